@@ -127,6 +127,15 @@ pub fn is_parametrize_decorator(expr: &Expr) -> bool {
     is_pytest_mark_decorator(expr, "parametrize")
 }
 
+/// Checks if a `@pytest.mark.parametrize(...)` call carries an `indirect` keyword.
+/// Without it the argnames are plain parameters, not fixture requests.
+pub fn has_indirect_keyword(expr: &Expr) -> bool {
+    matches!(expr, Expr::Call(call) if call
+        .keywords
+        .iter()
+        .any(|kw| kw.arg.as_ref().is_some_and(|a| a.as_str() == "indirect")))
+}
+
 /// Extracts fixture names from @pytest.mark.parametrize when indirect=True.
 pub fn extract_parametrize_indirect_fixtures(
     expr: &Expr,
